@@ -305,7 +305,7 @@ func (g *mgen) stmt() P {
 		return g.effectStmt()
 	case 2:
 		kind := []string{"var", "let", "let", "const"}[g.r.Intn(4)]
-		if g.r.Chance(4) {
+		if g.r.Chance(20) {
 			return g.declare(kind, lit(`"2"`))
 		}
 		return g.declare(kind, g.expr(2))
@@ -446,7 +446,7 @@ func genMeta(r *vh.Rng, tier string) MetaCase {
 		}
 		// a counter-making closure and two or three variables are always present
 		first := lit("1")
-		if r.Chance(12) {
+		if r.Chance(45) {
 			first = lit(`"2"`)
 		}
 		parts = append(parts, g.declare("var", first), g.declare("let", g.literal()), g.declare("var", g.expr(1)))
